@@ -47,8 +47,36 @@ pub struct Outcome {
 
 /// Compare the crate with the npm model on one AST.  `strict_known` = do not tolerate open findings.
 pub fn check_ast(ast: &RangeAst, extra: &[MVersion], st: &mut Stats, strict_known: bool) -> Result<Outcome, Failure> {
+    // constructs of open findings are excluded by construction; a case that reaches this point through
+    // the minimiser, a fuzz input or a replay file and lies in such a class is counted, not compared
+    if !strict_known {
+        for (open, hit) in [
+            (F_WILD, ast.has_wildcard_misplaced()),
+            (F_HYPHEN, ast.has_lowerless_hyphen()),
+            (F_EMPTY, ast.has_empty_alternative()),
+        ] {
+            if hit && findings::is_open(open) {
+                st.known(open);
+                return Ok(Outcome { compared: 0 });
+            }
+        }
+    }
     let text = ast.render();
     let sets = npm::desugar(ast);
+    // history independence: a sibling spelling of the same range is parsed first (a memoised or
+    // thread-local "last result" keyed on a normalised text would leak into the real call)
+    {
+        let mut sib = ast.clone();
+        sib.lead = if sib.lead.is_empty() { " ".to_string() } else { String::new() };
+        if let Some(Alt::Simples { toks, .. }) = sib.alts.first_mut() {
+            if let Some(Tok::Cmp { p, blanks, .. }) = toks.first_mut() {
+                p.v = !p.v;
+                *blanks = (*blanks + 1) % 3;
+            }
+        }
+        let st_text = sib.render();
+        let _ = guard(|| Range::parse(&st_text).map(|r| r.satisfies(&Version::from((1u8, 2u8, 3u8)))));
+    }
     let res = guard(|| Range::parse(&text)).map_err(|p| Failure::new("parse-panics", format!("Range::parse({:?}) panicked: {}", text, p)))?;
     let pv = probes::probes(&interesting(&sets), extra);
     let model_text = npm::sets_text(&sets);
